@@ -117,6 +117,12 @@ Definition mismatch_C17 (k : case_C17) : bool :=
 (* ---------------------------------------------------------------- the oracle *)
 Definition vprefix (c : call) (p : path) : path := lexnorm (absolutize (c_cwd c) p).
 
+(* the physical location of an absolute component list in the tree [w] (os.path.realpath, non strict).  The
+   clauses of the property speak about directories, not about spellings of their names: "the view directory" is
+   the directory the prefix denotes (a component of the prefix may be a symbolic link), "that job's directory" is
+   the directory job.path denotes (the project may have been opened through a symbolic link). *)
+Definition phys (w : node) (p : path) : path := realpath w [] (([] : str) :: p).
+
 (* a previous view: directories and links only *)
 Fixpoint is_view_tree (n : node) : bool :=
   match n with
@@ -223,15 +229,15 @@ Definition exact_view (w : node) (vp : path) (c : call) : bool :=
       && Nat.eqb (length ls) (length i)
       && pnodupb (map fst i)
       && forallb (fun e => path_mem (fst e) ls
-                           && path_eqb (realpath w [] (([] : str) :: vp ++ fst e)) (snd e)
-                           && match get w (snd e) with Some (Dir _) => true | _ => false end) i
+                           && path_eqb (realpath w [] (([] : str) :: vp ++ fst e)) (phys w (snd e))
+                           && match get w (phys w (snd e)) with Some (Dir _) => true | _ => false end) i
   end.
 
 (* the oracle proper, on the components of an observation *)
 Definition holds_core (pre : node) (c : call) (sprefix : path) (accepted : bool) (post : node)
            (res2 : option exn) (ops2_zero : bool) (post2 : node) (res3 : option exn) (post3 : node) : bool :=
-  let vp := vprefix c (c_prefix c) in
-  let sp := vprefix c sprefix in
+  let vp := phys pre (vprefix c (c_prefix c)) in
+  let sp := phys pre (vprefix c sprefix) in
   if negb (pre_ok pre vp) then true else
   if accepted then
       negb (existsb (fun j => existsb has_sep (j_items j)) (c_jobs c))     (* separators must be rejected *)
@@ -269,7 +275,17 @@ Fixpoint has_job_dir (n : node) : bool :=
   | _ => false
   end.
 
-(* open finding only: 5 = the leaf name used as a token *)
+(* 6 = lexical instead of physical paths: a component of the view prefix, or of the path of a selected job, is a
+   symbolic link (the spelling of the directory differs from its physical location in the tree before the call).
+   os.path.relpath computes the link targets lexically, and _analyze_view compares os.path.realpath of a link with
+   the spelling job.path. *)
+Definition through_symlink (w : node) (p : path) : bool := negb (path_eqb (phys w p) p).
+Definition lexical_paths (k : case_C17) : bool :=
+  let c := k_call k in
+  through_symlink (k_pre k) (vprefix c (c_prefix c))
+  || existsb (fun j => through_symlink (k_pre k) (j_dir j)) (c_jobs c).
+
+(* open findings only: 5 = the leaf name used as a token, 6 = lexical paths *)
 Definition classify_C17 (k : case_C17) : N :=
   let c := fill_call k in
   let vp := vprefix c (c_prefix c) in
@@ -279,6 +295,7 @@ Definition classify_C17 (k : case_C17) : N :=
       let ks := keys_of lk in
       if existsb nonfinal_has_job ks
               || match get (k_pre k) vp with Some n => has_job_dir n | None => false end then 5
+      else if lexical_paths k then 6
       else 0
   end.
 
